@@ -112,3 +112,41 @@ package schema
 //@ nonnil *StepOutputSchema
 //@ nonnil Object
 //@ invariant ScopeSchema(s): s.RootValue in s.ObjectsValue && s.ObjectsValue[s.RootValue] != nil && s.ObjectsValue[s.RootValue].IDValue == s.RootValue
+
+// ---------------------------------------------------------------------------------------------
+// C02: exactly the declared constraints, on all three paths (Unserialize / Validate / Serialize)
+// ---------------------------------------------------------------------------------------------
+
+//@ spec isCE(err error) bool = typeOf(err) == type(*ConstraintError)
+//@ spec inBoundsI(min *int64, max *int64, v int64) bool = (min == nil || v >= *min) && (max == nil || v <= *max)
+//@ spec inBoundsF(min *float64, max *float64, v float64) bool = (min == nil || !(v < *min)) && (max == nil || !(v > *max))
+//@ spec numericKind(k int) bool = (k >= KindInt && k <= KindUintptr) || k == KindFloat32 || k == KindFloat64
+//@ spec asIntOK(d any) bool = d != nil && numericKind(kindOf(d))
+//@ spec asFloatOK(d any) bool = d != nil && numericKind(kindOf(d))
+
+//@ func asInt(d) -> res, err
+//@   ensures (err == nil) == asIntOK(d)
+//@   ensures typeOf(d) == type(int64) ==> res == d.(int64)
+//@   ensures err != nil ==> isCE(err) && fresh(err)
+//@   assigns nothing
+
+//@ func IntSchema.Serialize(i, d) -> res, err
+//@   ensures (err == nil) == (asIntOK(d) && inBoundsI(i.MinValue, i.MaxValue, res.(int64)))
+//@   ensures typeOf(res) == type(int64)
+//@   ensures typeOf(d) == type(int64) ==> res == d
+//@   ensures err != nil ==> isCE(err) && fresh(err)
+//@   assigns nothing
+
+//@ func IntSchema.Validate(i, d) -> err
+//@   ensures typeOf(d) == type(int64) ==> ((err == nil) == inBoundsI(i.MinValue, i.MaxValue, d.(int64)))
+//@   ensures !asIntOK(d) ==> err != nil
+//@   assigns nothing
+
+//@ func IntSchema.ValidateType(i, data) -> err
+//@   ensures (err == nil) == inBoundsI(i.MinValue, i.MaxValue, data)
+//@   assigns nothing
+
+//@ func IntSchema.SerializeType(i, data) -> res, err
+//@   ensures (err == nil) == inBoundsI(i.MinValue, i.MaxValue, data)
+//@   ensures res == any(data)
+//@   assigns nothing
